@@ -55,6 +55,12 @@ def value_alphabet(f: refdb.Field, db):
             out.append(num("mid+0.3step", mid, Fraction(3, 10)))
             out.append(num("mid+0.5step", mid, Fraction(1, 2)))
             out.append(num("mid-0.3step", mid, Fraction(-3, 10)))
+            if res.denominator == 1 and res > 1 and off.denominator == 1:
+                # integer resolution > 1: between-step values given as Python ints (not floats)
+                for label, frac_ in (("int_mid+0.3step", Fraction(3, 10)), ("int_mid+0.7step", Fraction(7, 10)), ("int_mid+0.99step", Fraction(99, 100))):
+                    iv = int((Fraction(mid) + frac_) * res + off)
+                    if iv % int(res) and rr[0] * res + off <= iv <= rr[1] * res + off:
+                        out.append((label, iv, iv, ("num", Fraction(iv))))
         # one step beyond the representable interval, and far beyond
         near = (("below_rep", lo_raw - 1), ("not_available_code", hi_raw + 1), ("above_rep", hi_raw + 2)) if b <= 48 else ()   # one raw step is below float resolution for wider fields
         for label, rv in near + (("far_above", (hi_raw + 1) * 1000 + 7), ("far_below", -(abs(lo_raw) + 1) * 1000 - 7)):
